@@ -35,3 +35,21 @@ PROPS['C17'] = dict(
     assumptions=COMMON_ASSUME + ['debug build: u32 overflow panics (Slot::numeric(u) for u >= 2^30, fresh counter exhaustion) are modelled as panics',
                                  'one thread; the table is thread-local (cross-thread independence is C20)'],
 )
+
+PROPS['C16'] = dict(
+    level='proof',
+    module='SlotVerif.Props.C16',
+    suites=[dict(name='shape', variant='default', shrink=False,
+                 quick=dict(count=60000), thorough=dict(count=2000000))],
+    rule='corr.shape.weak: for each of the 7 harness languages (plain slots; Bind<AppliedId>; Bind<Bind<_>> with a free child '
+         'before it; free child after a Bind; (Slot,AppliedId) pseudo-binder; payload types u32/i64/bool/char/Symbol; the main '
+         'e-graph language) a random variant with random slot assignment (numeric and named slots, repeated names, child maps of '
+         'size 0-3), in three scoping modes (clean 60%, binder names reused 20%, ill-scoped/shadowing 20%), plus an injective '
+         'renaming of all its names (permutation of the names or into a disjoint alphabet). Compared: weak_shape (node+bijection) '
+         'of the node, of the renamed node and of the shape; slots(); all/public/private occurrences; to_syntax; '
+         'from_syntax(to_syntax); apply_slotmap(shape, bijection). The harness also evaluates the laws of the property on the '
+         'implementation\'s answers. non-trivial = node has a repeated slot or a binder; distinct = by hash of the case line',
+    trusted_base=['modelled, not verified: payload FromStr/Display impls (u32, i64, bool, char, Symbol), VecSet ordering'],
+    assumptions=COMMON_ASSUME + ['the derive macro is exercised through seven concrete define_language! instances built from /repo/slotted-egraphs-derive (patched in)'],
+    pending_theorems=['weakShape_rename', 'weakShape_idem', 'weakShape_apply (under NoCapture)', 'weakShape_eq_iff', 'fromSyntax_toSyntax'],
+)
